@@ -239,6 +239,7 @@ type ioArgs struct {
 func ioMain(a ioArgs) int {
 	installHooks()
 	reuseOptions = true
+	stabilityRing = make([]*Outcome, 6)
 	start := time.Now()
 	st := newIOStats(a.prop, a.config, a.worker, a.seed)
 	viols := 0
